@@ -550,6 +550,12 @@ func (e *FuncEnc) encodeConvert(x *ssa.Convert) {
 		hid := e.D.UF("heap_id_bytes", []string{"(Array Int Int)"}, "Int")
 		e.setVal(x, "Str", sx(f, v, sx(hid, h)))
 		e.assume(e.curReach, eq(sx("slen", e.val[x]), sx("sl_len", v)))
+		if e.W != nil && e.W.JSONViews {
+			// a raw message is the token null iff its text is "null"
+			e.needUn()
+			e.assume(e.curReach, eq(sx("docNull", sx("rawdoc", v)), and(eq(sx("sl_len", v), "4"), eq(e.val[x], e.D.Lit("null")))))
+			e.Assumed["a raw message is the document null iff its text is the four bytes null (no surrounding white space)"] = true
+		}
 	case fs == "Int" && ts == "Str":
 		f := e.D.UF("str_of_rune", []string{"Int"}, "Str")
 		e.setVal(x, "Str", sx(f, v))
@@ -768,9 +774,10 @@ func (e *FuncEnc) encodeNext(x *ssa.Next) {
 		vis := e.heapName(e.cur, key, srt)
 		ks := e.D.SortOf(mt.Key())
 		_, hk3, _, hs3, _, _ := e.mapKeys(mt)
-		hasArr := sx("select", e.heapName(e.cur, hk3, hs3), m)
+		hasArr := constOf(e, "rng_has", fmt.Sprintf("(Array %s Bool)", ks), sx("select", e.heapName(e.cur, hk3, hs3), m))
+		visC := constOf(e, "rng_vis", srt, vis)
 		e.assume(e.curReach, implies(okS, not(sx("select", vis, k))))
-		e.assume(e.curReach, implies(not(okS), fmt.Sprintf("(forall ((q %s)) (! (=> (and (not (= %s 0)) (select %s q)) (select %s q)) :pattern ((select %s q))))", ks, m, hasArr, vis, vis)))
+		e.assume(e.curReach, implies(not(okS), fmt.Sprintf("(forall ((q %s)) (! (=> (and (not (= %s 0)) (select %s q)) (select %s q)) :pattern ((select %s q)) :pattern ((select %s q))))", ks, m, hasArr, visC, visC, hasArr)))
 		e.setHeap(e.cur, key, srt, ite(okS, sx("store", vis, k, "true"), vis))
 		e.Cache["visited:"+key] = true
 	}
